@@ -404,6 +404,19 @@ def gen_C08(g, tier):
         for first in 'AB':
             other = 'B' if first == 'A' else 'A'
             cs.append(Case('o.c08.pairing %s' % (first * lead + other * (lead + 3) + first * 5), 'orc', 'pairing-long-lead'))
+    # leads that build up in stages: one consumer gets L ahead, the other takes j, the first goes on (the pending queue grows, is
+    # partly consumed and grows again), around every power of two of L; and long strongly biased random schedules
+    for k in (range(4, 18) if tier == 'quick' else range(1, 21)):
+        for L in ((1 << k) - 1, 1 << k, (1 << k) + 1):
+            first = g.choice('AB'); other = 'B' if first == 'A' else 'A'
+            j = g.choice([1, 2, 3, 100, g.randint(1, max(1, L - 1))]); j = min(j, L)
+            runs = ['%s%d' % (first, L), '%s%d' % (other, j), '%s%d' % (first, j + g.randint(1, 3 * L)), '%s%d' % (other, g.randint(1, L)), '%s%d' % (first, g.randint(1, 2 * L)), '%s%d' % (other, 4 * L + j + 10)]
+            cs.append(Case('o.c08.pairingrle ' + ' '.join(runs), 'orc', 'pairing-lead-built-in-stages'))
+    for _ in range(2 if tier == 'quick' else 12):
+        first = g.choice('AB'); other = 'B' if first == 'A' else 'A'; runs = []; total = 0; target = 200000 if tier == 'quick' else 1500000
+        while total < target:
+            a, b = 1 + int(g.r.expovariate(1 / 6.0)), 1 + int(g.r.expovariate(1 / 4.0)); runs += ['%s%d' % (first, a), '%s%d' % (other, b)]; total += a + b
+        cs.append(Case('o.c08.pairingrle ' + ' '.join(runs), 'orc', 'pairing-long-biased-walk'))
     for which in (0, 1):
         for tries in (1, 2, 3):
             for _ in range(2 if tier == 'quick' else 20):
